@@ -50,6 +50,14 @@ func c01Scenario(c *Ctx, p c01Params) Sched {
 			if cfgKey != "basic" {
 				st := env.NewFaultStore()
 				st.HonorTTL = p.Prologue != "store-lazy-expired-record" // lazy: hands back records past their TTL
+				if p.Prologue == "store-writes-fail" { // the store is reachable for reads, every write is refused
+					st.Menu = func(op string, key []byte) []env.Fault {
+						if op == "set" {
+							return []env.Fault{{Name: "error", Err: env.ErrInjected}}
+						}
+						return nil
+					}
+				}
 				st.Register("fault://c01")
 			}
 			e := getEnv(cfg, cfgKey)
@@ -194,6 +202,7 @@ func init() {
 			{Name: "burst3-pass-in-flight-across-period-end", Threads: 3, Reqs: 1, T: 1, Prologue: "hfp-in-period", Bounds: vsched.Bounds{Preempt: 2, Tick: 2, Data: -1, Total: 4}},
 			{Name: "burst3-record-only-in-store", Threads: 3, Reqs: 1, T: 5, Prologue: "store-fresh-record", Bounds: vsched.Bounds{Preempt: 2, Tick: 0, Data: -1, Total: 2}},
 			{Name: "burst3-expired-record-in-lazy-store", Threads: 3, Reqs: 1, T: 1, Prologue: "store-lazy-expired-record", Bounds: vsched.Bounds{Preempt: 2, Tick: 0, Data: -1, Total: 2}},
+			{Name: "burst3-cold-store-writes-fail", Threads: 3, Reqs: 1, T: 5, Prologue: "store-writes-fail", Bounds: vsched.Bounds{Preempt: 2, Tick: 0, Data: -1, Total: 2}},
 		}
 		if c.Thorough() {
 			q = []c01Params{
@@ -207,6 +216,7 @@ func init() {
 				{Name: "burst5-cold", Threads: 5, Reqs: 1, T: 2, Bounds: vsched.Bounds{Preempt: 1, Tick: 1, Data: -1, Total: 2}},
 				{Name: "burst3-record-only-in-store", Threads: 3, Reqs: 1, T: 5, Prologue: "store-fresh-record", Bounds: vsched.Bounds{Preempt: 3, Tick: 1, Data: -1, Total: 3}},
 				{Name: "burst3-expired-record-in-lazy-store", Threads: 3, Reqs: 1, T: 1, Prologue: "store-lazy-expired-record", Bounds: vsched.Bounds{Preempt: 3, Tick: 1, Data: -1, Total: 3}},
+				{Name: "burst3-cold-store-writes-fail", Threads: 3, Reqs: 1, T: 5, Prologue: "store-writes-fail", Bounds: vsched.Bounds{Preempt: 3, Tick: 0, Data: -1, Total: 3}},
 			}
 		}
 		for _, p := range q {
